@@ -108,6 +108,7 @@ def hazards(ctx: Ctx, funcs, clause: str = "S0"):
     from rules.trunc import TruncAnalysis
     from rules.strided import absolute_offset_views
     from rules.negzero import negative_length_bounds
+    from rules.alias import aliasing_cache_stores
     from rules.excmatch import ArgcheckRaises, mismatched_handlers
     from rules.boundary import length_equals_position
     from sa.astutil import u
@@ -168,6 +169,14 @@ def hazards(ctx: Ctx, funcs, clause: str = "S0"):
                    (f"`{u(blp[0]['node'])}` marks a length (0..T) by equality in an index range of extent "
                     f"`{blp[0]['extent']}`: the boundary T is never marked") if blp else "", rel,
                    blp[0]["node"].lineno if blp else f.line, nontrivial=False)
+        if f.cls is not None:
+            cs = aliasing_cache_stores(f)
+            if cs:
+                bcs = [x for x in cs if not x["ok"]]
+                col.ob("G29", clause, f"{where}::cache-stores-a-snapshot", not bcs,
+                       (f"`{u(bcs[0]['node'])}` caches {bcs[0]['why']} by reference: after an in-place edit by the caller the "
+                        f"validity test compares the object with itself and a stale result is served") if bcs else "", rel,
+                       bcs[0]["node"].lineno if bcs else f.line, sample=[(x["attr"], x["why"]) for x in cs], nontrivial=False)
         nz = negative_length_bounds(f)
         if nz:
             bnz = [x for x in nz if not x["ok"]]
